@@ -121,6 +121,7 @@ def request_case():
                 ch._set_transport(t)
                 ch._set_window(2 ** 21, 2 ** 15)
                 ch._set_remote_channel(7, 2 ** 21, 2 ** 15)
+                probe["ch"] = ch                 # ChannelMap only holds weak references
                 probe["nsent"] = len(t.sent)
                 return (MSG_CHANNEL_REQUEST, body, 3)
             script = L.Script(L.handshake_prefix(False) + [marker])
